@@ -25,8 +25,8 @@ def repr_sets(rng, k):
     for _ in range(k):
         n = rng.choice([1, 2, 2, 3, 4])
         s = rng.sample(REPR_FLAGS, n)
-        if "-fdelete-string-free-memory" in s and not any(x.startswith("-fallocate-str-space-dynamic") for x in s):
-            s.append("-fallocate-str-space-dynamic-on-demand")
+        if "-fdelete-string-free-memory" in s and not any(x.startswith("-fallocate-str-space-dynamic") for x in s) and rng.random() < 0.5:
+            s.append("-fallocate-str-space-dynamic-on-demand")   # (alone the flag is legal and changes nothing: strings stay in the struct)
         thr = rng.choice([None, None, "1", "2", "8"])
         extra = ["-O2", "--collapsed-range-length", thr] if thr else ["-O2"]
         sets.append(s + extra)
@@ -128,6 +128,9 @@ def run(ctx):
         sets = repr_sets(rng, 3 if quick else 8)
         if name.startswith("feat-"):
             sets += [["-fstrings-as-u8", "-O2"], ["-fallocate-str-space-dynamic", "-O2"], ["-fallocate-str-space-dynamic-on-demand", "-fstrings-as-u8", "-O2"]]
+        if "str" in src:
+            # flags that only take effect together with another one, given alone (strings must stay where they are)
+            sets.append([rng.choice(["-fdelete-string-free-memory", "-fno-allocate-str-space-in-struct"]), "-O2"])
         if "str" in src and ("delete" in src or '= "";' in src):
             sets.append(["-fallocate-str-space-dynamic-on-demand", "-fdelete-string-free-memory", "-O2"])   # the heap mode with the most states
         def has_index(k):
